@@ -124,13 +124,16 @@ SliceKey(axis, t, l, s) ==
 
 \* ---- evaluation context: everything a request needs, computed once per (dataset, options) ----
 \* X.T, X.L, X.S : verified dimensions;  X.G : the verified grid;  X.n : number of scored inputs;
-\* X.adj[j, f, c] : adjusted value of field f of input j at case c;  X.pos[c] : row-major index of c
+\* X.adj[j, f, c] : adjusted value of field f of input j at case c;  X.pos[c] : row-major index of c;
+\* X.cells[m] : the case with row-major index m
 Context(D, O) ==
   LET T == CommonTimes(D, O)  L == CommonLeads(D, O)  S == CommonLocs(D, O)
       G == {<<t, l, s>> : t \in Elems(T), l \in Elems(L), s \in Elems(S)}
   IN  [T |-> T, L |-> L, S |-> S, G |-> G, n |-> NumInputs(D),
        adj |-> [j \in 1..NumInputs(D), f \in {"obs", "fcst"}, c \in G |-> Adj(D, O, j, f, c[1], c[2], c[3])],
-       pos |-> [c \in G |-> ((IndexIn(T, c[1]) - 1) * Len(L) + (IndexIn(L, c[2]) - 1)) * Len(S) + IndexIn(S, c[3])]]
+       pos |-> [c \in G |-> ((IndexIn(T, c[1]) - 1) * Len(L) + (IndexIn(L, c[2]) - 1)) * Len(S) + IndexIn(S, c[3])],
+       cells |-> [m \in 1..(Len(T) * Len(L) * Len(S)) |->
+                    <<T[((m - 1) \div (Len(S) * Len(L))) + 1], L[(((m - 1) \div Len(S)) % Len(L)) + 1], S[((m - 1) % Len(S)) + 1]>>]]
 
 SliceKeys(X, axis) == SortInts({SliceKey(axis, c[1], c[2], c[3]) : c \in X.G})
 NumSlices(X, axis) == Len(SliceKeys(X, axis))
@@ -147,6 +150,18 @@ Cases(X, r) == {c \in SliceOf(X, r.axis, r.idx) : Valid(X, r, c)}
 \* fields; as a function from the case (the order of a slice's values is not part of any property,
 \* the pairing of the fields' values is).  No contributing case: a single NaN per field.
 Scores(X, r) == [c \in Cases(X, r) |-> [k \in DOMAIN r.fields |-> X.adj[r.inp, r.fields[k], c]]]
+
+\* The arrays a request returns, one per field: a slice request returns the values of the contributing cases in
+\* row-major order (a single NaN if there is none); a whole-array request ("all") returns the verified grid with NaN
+\* wherever the case does not contribute.
+CasePositions(X, r) == SortInts({X.pos[c] : c \in Cases(X, r)})
+ExpectedArrays(X, r) ==
+  LET cs == CasePositions(X, r) IN
+  [k \in DOMAIN r.fields |->
+     IF r.axis = "all"
+     THEN [m \in DOMAIN X.cells |-> IF X.cells[m] \in Cases(X, r) THEN X.adj[r.inp, r.fields[k], X.cells[m]] ELSE NaN]
+     ELSE IF cs = <<>> THEN <<NaN>>
+     ELSE [m \in DOMAIN cs |-> X.adj[r.inp, r.fields[k], X.cells[cs[m]]]]]
 
 ---------------------------------------------------------------------------
 (* Theorems of the abstract semantics, checked by TLC on every enumerated dataset *)
